@@ -81,7 +81,11 @@ func startSys(cfg *config.Config, bes []*vh.Backend, listen bool) (*Sys, error) 
 		ln := vh.ListenLoopback()
 		s.Ln = ln
 		s.Addr = ln.Addr().String()
-		go s.Srv.Serve(ln)
+		if cfg.Server.TLS.Enabled {
+			go s.Srv.ServeTLS(ln, cfg.Server.TLS.CertFile, cfg.Server.TLS.KeyFile)
+		} else {
+			go s.Srv.Serve(ln)
+		}
 	}
 	return s, nil
 }
